@@ -30,6 +30,7 @@ import (
 	"fmt"
 	"io"
 	"log/slog"
+	"net/http/httptest"
 	"os"
 	"path/filepath"
 	"sort"
@@ -54,7 +55,7 @@ func (c37) Parallel() bool { return true }
 // ---- pools (ids are positions; id order = byte order for buckets and keys) ----
 var c37Buckets = []string{"bkt-a", "bkt-b", "bkt-c", "bkt-d"}
 var c37Keys = []string{"a", "a b+c&d=e", "dir/", "dir/sub/x", "k%41", "\xc3\xbc-umlaut"}
-var c37CT = []string{"", "text/plain", "application/x-c37; charset=utf-8", "x"}
+var c37CT = []string{"", "text/plain", "application/x-c37; charset=utf-8", "x", "application/octet-stream"}
 var c37CC = []string{"", "no-cache", "max-age=60, public"}
 var c37CD = []string{"", "inline", "attachment; filename=\"x y.txt\""}
 var c37CE = []string{"", "gzip", "identity"}
@@ -250,6 +251,47 @@ func c37Acquire(scratch string) (*c37Pooled, error) {
 		return nil, err
 	}
 	return &c37Pooled{st: st, db: db}, nil
+}
+
+// a pooled storage with a pithos HTTP server in front of it and an S3ClientStorage pointed at that
+// server (source / destination kind "client"); the state is seeded and swept on the backing storage
+type c37Served struct {
+	p      *c37Pooled
+	srv    *httptest.Server
+	client storage.Storage
+}
+
+var c37ServedPool []*c37Served
+
+func c37AcquireServed(scratch string) (*c37Served, error) {
+	c37PoolMu.Lock()
+	if n := len(c37ServedPool); n > 0 {
+		s := c37ServedPool[n-1]
+		c37ServedPool = c37ServedPool[:n-1]
+		c37PoolMu.Unlock()
+		return s, nil
+	}
+	c37PoolMu.Unlock()
+	p, err := c37Acquire(scratch)
+	if err != nil {
+		return nil, err
+	}
+	srv, cl, err := c38Serve(p.st)
+	if err != nil {
+		return nil, err
+	}
+	return &c37Served{p: p, srv: srv, client: cl}, nil
+}
+func c37ReleaseServed(s *c37Served) {
+	if err := c37Wipe(s.p.st); err != nil {
+		s.srv.Close()
+		s.p.st.Stop(c20Ctx)
+		s.p.db.Close()
+		return
+	}
+	c37PoolMu.Lock()
+	c37ServedPool = append(c37ServedPool, s)
+	c37PoolMu.Unlock()
 }
 
 func c37Wipe(st storage.Storage) error {
@@ -763,9 +805,10 @@ func (c37) Run(in string, scratch string) Result {
 	c37Sem <- struct{}{}
 	defer func() { <-c37Sem }()
 	t := strings.Split(in, " ")
-	if len(t) < 5 || t[0] != "M" {
+	if len(t) < 5 || (t[0] != "M" && t[0] != "Ms" && t[0] != "Md" && t[0] != "Msd") {
 		return Result{Out: "PARSE-ERROR", Tags: []string{"invalid"}}
 	}
+	srcClient, dstClient := strings.Contains(t[0], "s"), strings.Contains(t[0], "d")
 	srcD, i, ok := c37ParseStore(t, 1)
 	if !ok {
 		return Result{Out: "PARSE-ERROR", Tags: []string{"invalid"}}
@@ -777,17 +820,38 @@ func (c37) Run(in string, scratch string) Result {
 	fail := func(what string, err error) Result {
 		return Result{Out: "SETUP-ERROR " + what + " " + err.Error(), Oracle: "FAIL:setup " + what + " " + err.Error(), Tags: []string{"setup-error"}}
 	}
-	sp, err := c37Acquire(scratch)
-	if err != nil {
-		return fail("open-src", err)
+	// src / dst: the backing storages (seeded and swept directly); srcH / dstH: what MigrateStorage gets
+	var src, dst, srcH, dstH storage.Storage
+	if srcClient {
+		sv, err := c37AcquireServed(scratch)
+		if err != nil {
+			return fail("open-src", err)
+		}
+		defer c37ReleaseServed(sv)
+		src, srcH = sv.p.st, sv.client
+	} else {
+		sp, err := c37Acquire(scratch)
+		if err != nil {
+			return fail("open-src", err)
+		}
+		defer c37Release(sp)
+		src, srcH = sp.st, sp.st
 	}
-	defer c37Release(sp)
-	dp, err := c37Acquire(scratch)
-	if err != nil {
-		return fail("open-dst", err)
+	if dstClient {
+		sv, err := c37AcquireServed(scratch)
+		if err != nil {
+			return fail("open-dst", err)
+		}
+		defer c37ReleaseServed(sv)
+		dst, dstH = sv.p.st, sv.client
+	} else {
+		dp, err := c37Acquire(scratch)
+		if err != nil {
+			return fail("open-dst", err)
+		}
+		defer c37Release(dp)
+		dst, dstH = dp.st, dp.st
 	}
-	defer c37Release(dp)
-	src, dst := sp.st, dp.st
 	if err := c37Build(src, srcD); err != nil {
 		return fail("build-src", err)
 	}
@@ -805,7 +869,7 @@ func (c37) Run(in string, scratch string) Result {
 
 	// the migrator reports progress through slog.Info; keep the harness output quiet
 	c37Quiet.Do(func() { slog.SetDefault(slog.New(slog.NewTextHandler(io.Discard, nil))) })
-	merr := migrator.MigrateStorage(c20Ctx, src, dst)
+	merr := migrator.MigrateStorage(c20Ctx, srcH, dstH)
 
 	srcAfter, err := c37Sweep(src)
 	if err != nil {
@@ -859,7 +923,7 @@ func (c37) Run(in string, scratch string) Result {
 	if len(fails) > 0 {
 		res.Oracle = "FAIL:" + strings.Join(fails, " || ")
 	}
-	res.Tags = c37Tags(srcD, dstD)
+	res.Tags = c37Tags(srcD, dstD, srcClient, dstClient)
 	return res
 }
 
@@ -871,8 +935,18 @@ func c37CurrentOf(k c37Key) (c37Ver, bool) {
 	v := k.vers[len(k.vers)-1]
 	return v, !v.dm
 }
-func c37Tags(src, dst []c37Bucket) []string {
+func c37Tags(src, dst []c37Bucket, srcClient, dstClient bool) []string {
 	tags := map[string]bool{}
+	if srcClient {
+		tags["src:client"] = true
+	} else {
+		tags["src:local"] = true
+	}
+	if dstClient {
+		tags["dst:client"] = true
+	} else {
+		tags["dst:local"] = true
+	}
 	dstCur := map[int]int{}
 	dstHas := map[int]bool{}
 	for _, b := range dst {
@@ -934,6 +1008,7 @@ func c37Tags(src, dst []c37Bucket) []string {
 				if v.cls >= 2 {
 					tags["kf:C37-storage-class-dropped"] = true
 				}
+
 				if v.cls == 1 {
 					tags["class-explicit-standard"] = true
 				}
@@ -967,6 +1042,12 @@ func c37Tags(src, dst []c37Bucket) []string {
 				}
 				if v.tags != "-" {
 					tags["tagged"] = true
+					if dstClient && sz <= c37PartSize {
+						tags["kf:C37-client-destination-loses-tags"] = true
+					}
+				}
+				if dstClient && v.ct == 0 && sz <= c37PartSize {
+					tags["kf:C37-client-destination-content-type-defaulted"] = true
 				}
 			}
 		}
@@ -1006,7 +1087,7 @@ func c37GenPairs(r *Rng, nk, nv int) string {
 
 var c37Sizes = []int{0, 0, 1, 2, 7, 64, 1000, 4096, 70000}
 
-func c37GenVer(r *Rng, big bool) string {
+func c37GenVer(r *Rng, big bool, safe bool) string {
 	opt := func(n int) int {
 		if r.Chance(55) {
 			return 0
@@ -1055,10 +1136,20 @@ func c37GenVer(r *Rng, big bool) string {
 		cls = 1 + r.Intn(3)
 	}
 	return fmt.Sprintf("O:%s:%d:%d:%d:%d:%d:%d:%d:%d:%s:%s:%d", bt, np, opt(len(c37CT)), opt(len(c37CC)), opt(len(c37CD)), opt(len(c37CE)),
-		opt(len(c37CL)), exp, opt(len(c37WRL)), c37GenPairs(r, len(c37UMK), len(c37UMV)), c37GenPairs(r, len(c37TagK), len(c37TagV)), cls)
+		opt(len(c37CL)), exp, opt(len(c37WRL)), c37GenUM(r, safe), c37GenPairs(r, len(c37TagK), len(c37TagV)), cls)
 }
 
-func c37GenStore(r *Rng, names []int, maxKeys int, bigBudget *int, emptyish bool, src bool) string {
+// user metadata travels in HTTP headers when a client-kind storage is involved: keys are restricted
+// to lower-case ASCII there (the SDK lower-cases them, non-ASCII header names are not transportable);
+// values with spaces and '=&' stay
+func c37GenUM(r *Rng, safe bool) string {
+	if !safe {
+		return c37GenPairs(r, len(c37UMK), len(c37UMV))
+	}
+	return c37GenPairs(r, 2, len(c37UMV))
+}
+
+func c37GenStore(r *Rng, names []int, maxKeys int, bigBudget *int, emptyish bool, src bool, safe bool) string {
 	out := []string{"S", strconv.Itoa(len(names))}
 	for _, n := range names {
 		versioned := r.Chance(35)
@@ -1097,7 +1188,7 @@ func c37GenStore(r *Rng, names []int, maxKeys int, bigBudget *int, emptyish bool
 					if r.Chance(25) {
 						vers = append(vers, "D")
 					} else {
-						vers = append(vers, c37GenVer(r, false))
+						vers = append(vers, c37GenVer(r, false, safe))
 					}
 				}
 				if emptyish {
@@ -1109,7 +1200,7 @@ func c37GenStore(r *Rng, names []int, maxKeys int, bigBudget *int, emptyish bool
 					*bigBudget--
 					big = true
 				}
-				vers = []string{c37GenVer(r, big)}
+				vers = []string{c37GenVer(r, big, safe)}
 			}
 			out = append(out, "K", strconv.Itoa(k), strconv.Itoa(len(vers)))
 			out = append(out, vers...)
@@ -1144,7 +1235,17 @@ func (c37) Gen(r *Rng, tier string, n int) []string {
 		if big > 0 && len(srcNames) == 0 {
 			srcNames = []int{0}
 		}
-		src := c37GenStore(g, srcNames, 4, &big, false, true)
+		kind := "M"
+		switch k := g.Intn(20); {
+		case k < 6:
+			kind = "Ms"
+		case k < 9:
+			kind = "Md"
+		case k < 11:
+			kind = "Msd"
+		}
+		safe := kind != "M"
+		src := c37GenStore(g, srcNames, 4, &big, false, true, safe)
 		zero := 0
 		var dst string
 		switch m := g.Intn(10); {
@@ -1152,12 +1253,12 @@ func (c37) Gen(r *Rng, tier string, n int) []string {
 			dst = "S 0"
 		case m < 7:
 			// buckets exist but count as empty
-			dst = c37GenStore(g, pick(3), 2, &zero, true, false)
+			dst = c37GenStore(g, pick(3), 2, &zero, true, false, safe)
 		default:
 			// arbitrary destination (often non-empty in a common bucket)
-			dst = c37GenStore(g, pick(3), 2, &zero, false, false)
+			dst = c37GenStore(g, pick(3), 2, &zero, false, false, safe)
 		}
-		out = append(out, "M "+src+" "+dst)
+		out = append(out, kind+" "+src+" "+dst)
 	}
 	return out
 }
